@@ -22,7 +22,8 @@ V4, V6 = '192.0.2.10', '2001:db8::10'
 
 
 def build(tier, rnd):
-    hosts = [('host1', 'name'), ('a.b.example', 'name'), ('1.2.3.4', 'v4'), ('::1', 'v6'), ('fe80::1', 'v6'), ('2001:db8:0:0:0:0:0:1', 'v6')]
+    hosts = [('host1', 'name'), ('a.b.example', 'name'), ('1.2.3.4', 'v4'), ('::1', 'v6'), ('fe80::1', 'v6'), ('2001:db8:0:0:0:0:0:1', 'v6'),
+             ('::ffff:192.0.2.1', 'v6'), ('64:ff9b::198.51.100.7', 'v6'), ('fe80::1%eth0', 'v6')]         # embedded IPv4 part, zone id
     ports = [None, 1, 22, 2222, 65535, 0, 65536, 70000]
     popts = [(0, None), (1, '1'), (22, '22'), (2222, '2222'), (65535, '65535'), (-5, '0'), (65536, '65536')]
     fams = ['', '4', '6', '46', '64']
@@ -117,6 +118,26 @@ def list_leg(ck):
         scs.append({'argv': ['-j', '--skip-rate-test', '--threads', str(threads), '-T', '{tmp}/targets.txt'], 'servers': servers, 'resolver': resolver,
                     'files': {'targets.txt': '\n'.join(lines) + '\n'}})
         meta.append((n, threads, want))
+    # the same lists in text mode at every minimum level: each result block still says which target it is about
+    tscs = []
+    for (n, threads, want), sc in list(zip(meta, scs))[:3]:
+        for lvl in ('info', 'warn', 'fail'):
+            t = dict(sc)
+            t['argv'] = ['-n', '-l', lvl] + [a for a in sc['argv'] if a != '-j']
+            tscs.append((t, want, lvl, threads))
+    for (t, want, lvl, threads), r in zip(tscs, runner.run_many([x[0] for x in tscs])):
+        ck.evaluated()
+        if r.get('harness_error') or r.get('hang'):
+            raise common.Machinery('target-list run failed: %r' % (r.get('harness_error') or 'hang'))
+        lines = r['stdout'].split('\n')
+        # (the label leaves the default port out: "host" for host:22)
+        counts = {lab: sum(1 for l in lines if l in ('(gen) target: %s' % lab, '(gen) target: %s' % (lab[:-3] if lab.endswith(':22') else lab))) for lab in want}
+        if any(v != 1 for v in counts.values()):
+            ck.violation('report-not-labelled level=%s' % lvl, 'text output of a target list at -l %s: target labels shown %r (each listed target must be named exactly once)' % (lvl, counts),
+                         {'argv': t['argv'], 'lines': t['files']['targets.txt'], 'stdout': r['stdout'][-2000:]})
+        else:
+            ck.cov['traces_validated_against_impl'] += 1
+            ck.nontrivial(('list-text', len(want), threads, lvl))
     for (n, threads, want), sc, r in zip(meta, scs, runner.run_many(scs)):
         ck.evaluated()
         if r.get('harness_error') or r.get('hang'):
